@@ -77,6 +77,7 @@ def device_handler(log):
                     garbage = z3.Const(f"dev_{key}_{it.fresh}", it.store[key].sort())
                     it.store[key] = ITE(g, garbage, it.store[key])
             cl["_in_keys"] = in_keys
+            cl["_saved_keys"] = set(saved)
             state["stack"].append((g, saved, out_keys))
             return
         # kernels / parallel / loop / end kernels ...: executed serially
@@ -139,8 +140,13 @@ def classify(i1, i2, cl):
     for a in assume:
         s.add(a)
     written = {}
+    first_kind = {}
     for e in evs:
-        if e.kind not in ("R", "W") or not e.idx or not e.key.startswith(("in_", "g_")):
+        if e.kind in ("R", "W") and e.idx:
+            first_kind.setdefault(e.key, e.kind)
+    classify.first_kind = first_kind
+    for e in evs:
+        if e.kind not in ("R", "W") or not e.idx or e.key not in cl.get("_saved_keys", ()):
             continue
         if e.kind == "W":
             written.setdefault(e.key, []).append(e)
@@ -154,7 +160,8 @@ def classify(i1, i2, cl):
         r = str(s.check())
         s.pop()
         if r == "sat":
-            return "exposed_read", e.key.replace("in_", "")
+            classify.last_key = e.key
+            return "exposed_read", e.key.replace("in_", "").replace("save_s_", "")
     return "partial_copyout", None
 
 
@@ -188,7 +195,9 @@ def decide(base_txt, new_txt, routine, K, E, key):
     out["diff"] = f"{res.diff} with clauses {out['clauses']}"
     cls, who = classify(i1, i2, log[0])
     out["key"] = dict(key, params=dict(key["params"], array=str(res.diff).replace("in_", ""), cls=cls,
-                                       exposed=who))
+                                       exposed=who,
+                                       exposed_first_write=(cls == "exposed_read" and
+                                                            classify.first_kind.get(classify.last_key) == "W")))
     # replay: emulate the device store in Fortran and run both with gfortran
     try:
         emu = emulate_text(new_txt, i1)
